@@ -517,9 +517,26 @@ SPEC = {
             'with the model and the invariants are evaluated on the implementation; non-trivial = at least 2 operations; '
             'distinct = distinct case text',
     'extra_trusted': ['C11: flate2/weezl are oracles whose answers come from the case (same table as C09)'],
-    'partial_note': 'placeholder',
+    'partial_note': 'rung 1 of the claim ladder is proved (allocation invariant over every program, freshness, no collision, pruning = unreachable, frames of the allocation operations); the later rungs are tied by correspondence and by the direct verdicts only',
 }
 
 
 def run(ctx):
     return propcheck.standard_check(ctx, SPEC)
+
+
+MANIFEST = {
+    'level_text': 'Machine-checked proofs (Coq) over an executable model of the public editing calls (new_object_id, add_object, '
+                  'set_object, delete_object, remove_object, prune_objects, delete_pages, renumber_objects, compress, decompress, '
+                  'change_content_stream, change_page_content, add_page_contents, add_to_page_content, get_or_create_resources, '
+                  'add_xobject, add_graphics_state): for EVERY program max_id stays >= every object number, handed-out ids are fresh '
+                  'and never collide, pruning removes exactly the unreachable objects; the model is tied to the implementation by '
+                  'random programs compared after every step, and the invariants (counts, contents, resources, frames) are evaluated '
+                  'directly on the implementation after every step.',
+    'level_note': 'Trusted: Coq kernel; hand-written model Model/Edit.v tied by correspondence (observable: returned values and the '
+                  'canonical dump of objects, trailer, max_id after every call); flate2 as an oracle whose answers come from the case; '
+                  'extraction/OCaml driver; Rust harness. Four delete_object defects repaired in /repo; three open known findings '
+                  '(inherited resources shadowed, Contents as indirect array, shared content stream) with class predicates.',
+    'technique': 'Coq proof by invariants over fold_left step + differential correspondence after every step + direct verdicts',
+    'design_ref': 'DESIGN.md 6 C11',
+}
